@@ -92,7 +92,7 @@ func (P) Gen(rng *sim.Rng, tier string) *harness.Case {
 			if m == rs.Hotspot && r.Var == 6 {
 				r.Var = 2
 			}
-			if m == rs.Flow && r.Var >= 12 {
+			if r.NotJSON() {
 				r.Var = 2 // NaN / Inf thresholds cannot be written in JSON
 			}
 		default:
